@@ -572,9 +572,9 @@ PLAN = [  # family, quick, thorough
 ]
 # the share of the tie that C01 / C03 run as one of their streams: algo_stream(ctx, streams, plan=PLAN_LIGHT)
 PLAN_LIGHT = [
-    ("f1_one_sided", 80, 2000), ("f1_two_sided", 80, 2000),
-    ("f2_one_sided", 40, 1000), ("f2_two_sided", 40, 1000),
-    ("f3_one_sided", 40, 1000), ("f3_two_sided", 40, 1000),
+    ("f1_one_sided", 40, 2000), ("f1_two_sided", 40, 2000),
+    ("f2_one_sided", 24, 1000), ("f2_two_sided", 24, 1000),
+    ("f3_one_sided", 24, 1000), ("f3_two_sided", 24, 1000),
 ]
 
 
